@@ -115,6 +115,26 @@ theorem blacklisted_never_verified (a b c : Nat) (pre post : List Op) (k : Key) 
     rw [run_g hc post]; exact run_blacklisted s.g post k hb hk
   exact ⟨this, (no_lookup_returns hc' this).1⟩
 
+/-- A blacklisted address that is not known yet never becomes known — hence is never walkable — through
+    discover_address / add_verified_peer or any other operation except load_snapshot (which by design loads whatever
+    the snapshot holds). -/
+theorem blacklisted_address_never_walkable (a b c : Nat) (pre post : List Op) (x : Addr) :
+    let s := run (init a b c) pre
+    x ∈ s.g.blAddr → x ∉ akeys s.g.allAddr → (∀ op ∈ post, op.isLoad = false) →
+    x ∉ akeys (run s post).g.allAddr ∧ ∀ svc old, x ∉ ((run s post).walkable svc old).1 := by
+  intro s hb hk hl
+  have hc : Coherent s := cache_coherent a b c pre
+  have hc' : Coherent (run s post) := coherent_run_of hc post
+  have hx : x ∉ akeys (run s post).g.allAddr := by
+    rw [run_g hc post]; exact run_blAddr s.g post x hl hb hk
+  refine ⟨hx, fun svc old hmem => hx ?_⟩
+  have hw := walkable_ok hc' svc old
+  cases svc with
+  | none => exact ((hw x).1 hmem).1
+  | some sv =>
+    obtain ⟨_, w, hw', _⟩ := (hw x).1 hmem
+    exact mem_akeys_iff.2 ⟨w, hw'⟩
+
 /-- Snapshot round trip: loading `snapshot()` of any graph into a fresh Network makes exactly the snapshot's
     addresses walkable, and these are exactly the preferred addresses (Peer.INTERFACE_ORDER, generated) of the verified
     peers other than 0.0.0.0:0 — for well-formed address values (`WFAddr`: what Address.pack encodes without loss). -/
@@ -160,6 +180,11 @@ example : (step (run (init 2 2 2) ([.add p0, .qKey 0] ++ [.rmPeer p0] ++ [.qAddr
 /-- hypotheses of `blacklisted_never_verified` hold in a reachable state; other peers still get verified there -/
 example : let s := run (init 2 2 2) [.blMid 0, .add p1]
     0 ∈ s.g.blMid ∧ 0 ∉ s.g.keys ∧ 1 ∈ s.g.keys := by decide
+
+/-- hypotheses of `blacklisted_address_never_walkable` hold in a reachable state, and discover_address is then a no-op
+    for that address while the introducing peer is still verified -/
+example : let s := run (init 2 2 2) [.blAddr a3, .disc p0 a3 (some 7) false]
+    a3 ∈ s.g.blAddr ∧ a3 ∉ akeys s.g.allAddr ∧ 0 ∈ s.g.keys := by decide
 
 /-- eviction happens in the model: with cap 1 the second cached address pushes the first one out -/
 example : (run (init 1 1 1) [.add p0, .add p1, .qAddr a1 none, .qAddr a2 none]).ipCache = [(a2, (1, 1))] := by decide
